@@ -160,7 +160,7 @@ fn ill_type(st: &mut S, choice: u64) -> bool {
             cases[0].0.push(CaseE::Simple(strlit()));
             true
         }
-        SK::IfLine(..) => false,
+        SK::IfLine(..) | SK::Data(_) | SK::Read(_) => false,
     }
 }
 
